@@ -371,8 +371,8 @@ class FunctionVC(Executor):
                 c = z3.Const(f"p_{name}_{i}", V)
                 ph.append(Val(c, a.ty))
                 ph_vars.append(c)
-                guards.append(smt.is_str(c) if a.ty == STR else smt.Alloc0(c))
-                guards += type_facts(Val(c, a.ty))
+                if a.ty != STR:
+                    guards.append(smt.Alloc0(c))  # the body was simplified assuming entry-allocated arguments
             elif isinstance(a, BVal):
                 c = z3.Bool(f"p_{name}_{i}")
                 ph.append(BVal(c))
